@@ -360,6 +360,9 @@ def run(ctx):
         jobs[k * 3 + (k % 3)] = dict(text=wide, opts=['--strategy', 'ddmin', '-j', str(2 + k)], cmd=[e2e.TOKPRED, 'all', 'v1', 'v4', str(k + 5)], env={})
     for j in jobs:
         j['env']['VERIF_CMD_DELAY'] = '20'
+    for k in (0, 1, 2) if not ctx.thorough else (0, 2, 5, 8, 11):
+        jobs.append(dict(text=wide, opts=['--strategy', 'hierarchical', '-j', '4'], cmd=[e2e.TOKPRED, 'all', 'v1'],
+                         env={'VERIF_CMD_DELAY': '30', 'VERIF_SLOW_ADOPT': '60'}))
     import concurrent.futures
 
     def one(kj):
@@ -410,6 +413,10 @@ def run(ctx):
         if not r['input_ok']:
             problems.append('the input file was written to')
         problems += e2e.lag_problems(r['events'])
+        # every rewrite carries the input adopted last (a result that arrives after another one was adopted is discarded, not written)
+        class _R:
+            events = r['events']; hung = False; rc = 0; stderr = ''; outtext = ''; cmdlog = []; input_unmodified = True
+        problems += [m + ' (the output file does not hold the last accepted input)' for m in e2e.analyse(_R)['C05'] if m.startswith('wrote ')][:2]
         for msg in problems:
             ctx.violation('impl-violation', input=j['text'], options=j['opts'], command=j['cmd'], scenario=kind, observed=msg,
                           expected='complete accepted input at every instant and after interrupt/kill; temporary directory gone')
